@@ -441,6 +441,13 @@ class Interp:
                 obj.attrs[t.attr] = val
             elif isinstance(obj, SVar):
                 self.mutate(obj, t, f'attribute store .{t.attr}')
+                if hasattr(self.model, 'var_setattr'):
+                    self.model.var_setattr(self, obj, t.attr, val, t)
+            elif hasattr(obj, '__dict__') and not isinstance(obj, Opaque | BoundModel | ExtRef | FuncRef | ClassRef):
+                try:
+                    setattr(obj, t.attr, val)
+                except AttributeError:
+                    raise RaiseSignal('AttributeError', t, self.where(t), (t.attr,)) from None
             else:
                 pass
         elif isinstance(t, ast.Subscript):
@@ -453,6 +460,8 @@ class Interp:
                     raise AnalysisError(f'subscript store at {self.where(t)}') from None
             elif isinstance(obj, SVar):
                 self.mutate(obj, t, 'item store')
+                if hasattr(self.model, 'var_store'):
+                    self.model.var_store(self, obj, key, val, t)
             elif isinstance(obj, SObj):
                 si = self.find_method(obj.cls, '__setitem__')
                 if si is None:
@@ -988,6 +997,14 @@ class Interp:
                 if isinstance(a, SVar) and a.origin is not None:
                     self.event('escapes-to-unknown', node, param=a.origin, callee=fn.why)
             return Opaque(f'{fn.why}(...)')
+        if callable(fn) and not isinstance(fn, type):
+            # a python-level stub object handed in by a check
+            try:
+                return fn(*args, **kwargs)
+            except (RaiseSignal, ReturnSignal, AnalysisError, PassThrough):
+                raise
+            except Exception as ex:  # noqa: BLE001
+                raise AnalysisError(f'stub call failed at {self.where(node)}: {type(ex).__name__}: {ex}') from None
         raise AnalysisError(f'call of {fn!r} at {self.where(node)}')
 
     def construct(self, ci: ClassInfo, args, kwargs, node):
@@ -1225,6 +1242,8 @@ class Interp:
         ev = lambda x: self.eval(x, env, mi) if x is not None else None  # noqa: E731
         lo, hi, st = ev(e.lower), ev(e.upper), ev(e.step)
         if any(isinstance(x, Opaque | SVar) for x in (lo, hi, st)):
+            if getattr(self.model, 'symbolic_slices', False) and not any(isinstance(x, Opaque) for x in (lo, hi, st)):
+                return slice(lo, hi, st)  # label-based slice with variable bounds
             return Opaque('slice with ⊤')
         return slice(lo, hi, st)
 
